@@ -12,21 +12,21 @@ PROP=$(python3 -c "import json,sys;print(json.load(open('$D/meta.json'))['proper
 PROPS=${*:-$PROP}
 WT=$(mktemp -d /tmp/seedwt.XXXXXX)
 git -C /repo worktree add -q --detach "$WT" HEAD || exit 3
-cleanup() { git -C /repo worktree remove --force "$WT" 2>/dev/null; rm -rf "$WT"; }
+cleanup() { git -C /repo worktree remove --force "$WT" 2>/dev/null; rm -rf "$WT" "$WT".log.*; }
 trap cleanup EXIT
 TESTNAME=$(grep -o 'func TestDemo[A-Za-z0-9_]*' "$D/demo_test.go" | head -1 | sed 's/func //')
 res() { echo "{\"dir\": \"$D\", \"property\": \"$PROP\", $1}"; }
-if ! git -C "$WT" apply "$D/patch.diff" 2>/tmp/seed.err && ! git -C "$WT" apply --3way "$D/patch.diff" 2>>/tmp/seed.err; then res "\"confirmed\": false, \"why\": \"patch does not apply\""; exit 1; fi
+if ! git -C "$WT" apply "$D/patch.diff" 2>$WT.log.err && ! git -C "$WT" apply --3way "$D/patch.diff" 2>>$WT.log.err; then res "\"confirmed\": false, \"why\": \"patch does not apply\""; exit 1; fi
 if ! (cd "$WT" && go build ./... >/dev/null 2>&1); then res "\"confirmed\": false, \"why\": \"does not build\""; exit 1; fi
 for i in 1 2 3; do
-  if ! (cd "$WT" && go test -vet=off -count=1 ./... >/tmp/seed.suite 2>&1); then res "\"confirmed\": false, \"why\": \"repository suite fails with the mutant\""; exit 1; fi
+  if ! (cd "$WT" && go test -vet=off -count=1 ./... >$WT.log.suite 2>&1); then res "\"confirmed\": false, \"why\": \"repository suite fails with the mutant\""; exit 1; fi
 done
 cp "$D/demo_test.go" "$WT/zz_demo_test.go"
-if (cd "$WT" && go test -vet=off -count=1 -run "^$TESTNAME\$" . >/tmp/seed.demo1 2>&1); then res "\"confirmed\": false, \"why\": \"demo passes with the mutant\""; exit 1; fi
-if grep -q "build failed\|cannot find\|undefined:" /tmp/seed.demo1; then res "\"confirmed\": false, \"why\": \"demo does not compile\""; exit 1; fi
+if (cd "$WT" && go test -vet=off -count=1 -run "^$TESTNAME\$" . >$WT.log.demo1 2>&1); then res "\"confirmed\": false, \"why\": \"demo passes with the mutant\""; exit 1; fi
+if grep -q "build failed\|cannot find\|undefined:" $WT.log.demo1; then res "\"confirmed\": false, \"why\": \"demo does not compile\""; exit 1; fi
 rm "$WT/zz_demo_test.go"
 git -C "$WT" checkout -- . ; cp "$D/demo_test.go" "$WT/zz_demo_test.go"
-if ! (cd "$WT" && go test -vet=off -count=1 -run "^$TESTNAME\$" . >/tmp/seed.demo2 2>&1); then res "\"confirmed\": false, \"why\": \"demo fails without the mutant\""; exit 1; fi
+if ! (cd "$WT" && go test -vet=off -count=1 -run "^$TESTNAME\$" . >$WT.log.demo2 2>&1); then res "\"confirmed\": false, \"why\": \"demo fails without the mutant\""; exit 1; fi
 rm "$WT/zz_demo_test.go"
 git -C "$WT" apply "$D/patch.diff" 2>/dev/null || git -C "$WT" apply --3way "$D/patch.diff"
 CAUGHT=""; MISSED=""
